@@ -665,6 +665,27 @@ def _parse_stmt(src):
     return ast.parse(textwrap.dedent(src)).body
 
 
+class _NoneListLifter(ast.NodeTransformer):
+    def __init__(self):
+        self.count = 0
+
+    def visit_ListComp(self, node):
+        g = node.generators
+        if (isinstance(node.elt, ast.Constant) and node.elt.value is None and len(g) == 1 and not g[0].ifs and not g[0].is_async
+                and isinstance(g[0].target, ast.Name) and isinstance(g[0].iter, ast.Call) and isinstance(g[0].iter.func, ast.Name)
+                and g[0].iter.func.id == "range" and len(g[0].iter.args) == 1 and not g[0].iter.keywords):
+            self.count += 1
+            return ast.Call(func=ast.Name(id="__pv_nonelist", ctx=ast.Load()), args=[g[0].iter.args[0]], keywords=[])
+        return node
+
+
+def pv_nonelist(n):
+    if isinstance(n, int):
+        return [None for _ in range(n)]
+    from .seq import SymSlots
+    return SymSlots(n)
+
+
 class _ListLifter(ast.NodeTransformer):
     """T2: `name = []` / `name: T = [..]`  ->  `name = __pv_list([..])` (lists that grow in cut loops)"""
 
@@ -676,6 +697,13 @@ class _ListLifter(ast.NodeTransformer):
         if isinstance(node.value, ast.List) and (self.names is None or tname in self.names):
             node.value = ast.Call(func=ast.Name(id="__pv_list", ctx=ast.Load()), args=[node.value], keywords=[])
             self.lifted.append(tname)
+        elif self.names is not None and tname in self.names:
+            # `[None for _ in range(E)]` anywhere in the assigned expression -> `__pv_nonelist(E)`: a list of E slots that
+            # all hold None (E may be symbolic); nothing else is changed
+            lifter = _NoneListLifter()
+            node.value = lifter.visit(node.value)
+            if lifter.count:
+                self.lifted.append(tname)
         return node
 
     def visit_Assign(self, node):
@@ -827,6 +855,7 @@ def rewrite(fn, cut=None, prefix=None, extra_globals=None, lift_lists=None):
     g["range"] = pv_range
     from .seq import pv_list, pv_len
     g["__pv_list"] = pv_list
+    g["__pv_nonelist"] = pv_nonelist
     g["len"] = pv_len
     g["zip"] = pv_zip
     if extra_globals:
